@@ -1593,6 +1593,7 @@ func (e *Engine) scheduleFrom(s *State, keepCurrent bool) {
 	choices := runnable(s)
 	if len(choices) == 0 {
 		if keepCurrent {
+			s.Sched = append(s.Sched, s.CurID) // recorded like any other decision (see below)
 			return
 		}
 		s.Status = "unsupported: deadlock: no runnable thread"
@@ -1609,6 +1610,10 @@ func (e *Engine) scheduleFrom(s *State, keepCurrent bool) {
 	}
 	if !keepCurrent {
 		e.switchTo(s, choices[0])
+	} else {
+		// staying on the current thread is a scheduling decision too: the schedule lists the running
+		// thread after every scheduling point, which is what a native replay follows
+		s.Sched = append(s.Sched, s.CurID)
 	}
 	s.top()
 }
